@@ -6,7 +6,7 @@ EXTENDS Flp, Json, IOUtils
 CONSTANT Tier      \* "quick" | "thorough": size of the randomness families on the larger fields
 
 CircuitsSmall ==
-  { [kind |-> "Count"], [kind |-> "HigherDegree"] }
+  { [kind |-> "Count"], [kind |-> "HigherDegree"], [kind |-> "Ternary", len |-> 2], [kind |-> "Ternary", len |-> 3] }
   \cup { [kind |-> "Sum", max |-> m] : m \in {1, 2, 3, 4, 6} }
   \cup { [kind |-> "SumVec", max |-> 1, len |-> 2, chunk |-> 1],
          [kind |-> "SumVec", max |-> 3, len |-> 2, chunk |-> 3],
@@ -24,7 +24,7 @@ CircuitsSmall ==
          [kind |-> "L1BoundSum", max |-> 1, len |-> 3, chunk |-> 5], [kind |-> "SumVec", max |-> 3, len |-> 1, chunk |-> 1] }
 \* circuits for the larger fields (P >= 193): longer inputs, more gadget calls
 CircuitsMedium ==
-  { [kind |-> "Count"], [kind |-> "HigherDegree"], [kind |-> "Sum", max |-> 100], [kind |-> "Sum", max |-> 127],
+  { [kind |-> "Count"], [kind |-> "HigherDegree"], [kind |-> "Ternary", len |-> 5], [kind |-> "Sum", max |-> 100], [kind |-> "Sum", max |-> 127],
     [kind |-> "SumVec", max |-> 5, len |-> 3, chunk |-> 4], [kind |-> "Histogram", len |-> 10, chunk |-> 3],
     [kind |-> "Histogram", len |-> 7, chunk |-> 7],
     [kind |-> "Multihot", len |-> 6, maxw |-> 3, chunk |-> 3], [kind |-> "L1BoundSum", max |-> 6, len |-> 3, chunk |-> 5] }
@@ -46,6 +46,7 @@ Wrap(S) == {<<x>> : x \in S}
 Meas(c) ==
   CASE c.kind = "Count" -> Wrap({0, 1})
     [] c.kind = "HigherDegree" -> Wrap({0, 1, 2})
+    [] c.kind = "Ternary" -> IF c.len <= 3 THEN [1..c.len -> 0..2] ELSE {[i \in 1..c.len |-> (a * i + b) % 3] : a \in {0, 1, 2}, b \in {0, 1}}
     [] c.kind = "Sum" -> Wrap(IF c.max <= 8 THEN 0..c.max ELSE {0, 1, c.max \div 2, Pow2(Bits(c.max) - 1) - 1, Pow2(Bits(c.max) - 1), c.max - 1, c.max})
     [] c.kind = "SumVec" -> IF c.len * Bits(c.max) <= 4 THEN [1..c.len -> 0..c.max]
                             ELSE {[i \in 1..c.len |-> (a * i + b) % (c.max + 1)] : a \in {0, 1, 3}, b \in {0, c.max}}
